@@ -1982,6 +1982,12 @@ impl Connection {
         is_1rtt: bool,
     ) {
         self.total_authed_packets += 1;
+        // Retry and Version Negotiation packets carry no packet number and are not protected by this
+        // connection's keys: whether genuine or not, they neither keep the connection alive nor
+        // count towards ECN feedback
+        let Some(packet) = packet else {
+            return;
+        };
         self.reset_keep_alive(now);
         self.reset_idle_timeout(now, space_id);
         self.permit_idle_reset = true;
@@ -1995,9 +2001,6 @@ impl Connection {
             }
         }
 
-        let Some(packet) = packet else {
-            return;
-        };
         if self.side.is_server() {
             if self.spaces[SpaceId::Initial].crypto.is_some() && space_id == SpaceId::Handshake {
                 // A server stops sending and processing Initial packets when it receives its first Handshake packet.
